@@ -163,7 +163,13 @@ def run(ctx):
             continue
         conds.append(xh.Cond(f"NestedReuseTOML independent of the spelling of the root ({sp!r} vs absolute), nested directory names incl. ones sorting before '.'", "C04.py", "_spell", {"r": r}, timeout=tmo, twin="_spell_reach"))
 
+    # serial run = one Project for the whole walk, pool = a fresh one per chunk: a look-up must not depend on earlier ones
+    for l0 in (2, 3, 4) if tier == "quick" else range(1, 13):
+        conds.append(xh.Cond(f"a look-up does not depend on the look-ups the same process did before (root shape #{l0}; files in the same and in another directory)", "C04.py", "_twice", {"levels": [l0, None, None], "carve": []}, timeout=tmo, twin="_twice_reach"))
+
     def confirm(c, ex):
+        if c.func == "_twice":
+            return f"history:{ex['levels']}:{ex['own_first']}:{ex['own_second']}", f"levels {ex['levels']}: after looking up a/b/f.py ({ex['own_first']}), a/b/g.py gives {ex['second']} (expected {ex['second_expected']}), c/h.py gives {ex['third(c/h.py)']} (expected {ex['third_expected']}), a/b/f.py again {ex['first_again']} (first time {ex['first']})", {"harness": "C04.py::_twice", "explain": ex}
         if c.func == "_spell":
             return f"root-spelling:{ex['root']}:{ex['dir']}", f"root spelled {ex['root']!r}, nested directory {ex['dir']!r}, levels {ex['levels']}: {ex['spelled_root']} instead of {ex['absolute_root']}", {"harness": "C04.py::_spell", "explain": ex}
         return f"{c.func}:{ex.get('file_order') or ex.get('order')}", f"{c.func}: identity order gives {ex['identity']}, permuted order gives {ex['permuted']} ({ {k: v for k, v in ex.items() if k not in ('identity', 'permuted')} })", {"harness": c.func, "explain": ex}
@@ -179,6 +185,7 @@ def run(ctx):
         "hash seed": f"{len(seeds)} PYTHONHASHSEED values for the pattern text; pairwise commutation decided for lines of any length",
         "file order": "3 files x {none, MIT, Foo} (+ read error on one), all 6 orders, 3 listing orders of 3 LICENSES entries",
         "root spelling": "root given as '.', 'proj', '../proj', './proj/../proj' vs absolute; nested directory named a, +a, (a), -a, #a, _a, ~a; 13 x 13 table shapes",
+        "look-up history": "three look-ups on one Project (a/b/f.py, a/b/g.py, c/h.py, a/b/f.py again), 2 nested REUSE.toml files of 13 shapes, own info in 4 kinds",
         "reuse_tomls order": "3 nested REUSE.toml files, each of 13 shapes, own info in 2 kinds, 3 generating permutations" + (" (thorough: 4 kinds, all permutations)" if tier == "quick" else ""),
     }
     ctx.outside = [
